@@ -10,6 +10,7 @@ import os
 import random
 import shutil
 import tempfile
+import urllib.parse
 
 from harness.monitors import iohook
 
@@ -145,7 +146,10 @@ def run_case(case):
     from neuroglancer_scripts.accessor import DataAccessError
     rnd = random.Random(case["hseed"])
     top = tempfile.mkdtemp(prefix="c12-")
-    base = os.path.join(top, "dataset")
+    # the dataset directory itself is spelled in several legal ways (spaces, non-ASCII,
+    # a literal percent sign) so that the URL forms below have something to decode
+    base = os.path.join(top, rnd.choice(["dataset", "dataset", "data set", "d\u00e4ta-\u8133",
+                                         "a%41b", "x+y=z"]))
     os.mkdir(base)
     sentinel = os.path.join(top, "secret")
     with open(sentinel, "wb") as f:
@@ -161,7 +165,20 @@ def run_case(case):
     ctx = f"{kind} cfg={cfg}" if kind == "file" else "sharded-accessor file ops"
     try:
         if kind == "file":
-            acc = file_accessor.FileAccessor(base, **cfg)
+            # the accessor is obtained the way the scripts obtain it (URL/path + option
+            # dictionary) in half of the histories, directly from the class otherwise
+            how = rnd.choice(["class", "path+options", "file-url+options"])
+            obs["writer_opened_via"] = {how: 1}
+            if how == "class":
+                acc = file_accessor.FileAccessor(base, **cfg)
+            else:
+                acc = accessor_mod.get_accessor_for_url(
+                    base if how == "path+options" else "file://" + urllib.parse.quote(base),
+                    dict(cfg))
+                if not isinstance(acc, file_accessor.FileAccessor):
+                    return {"violations": [{"kind": "dispatch-not-a-file-accessor",
+                                            "detail": f"{how} {cfg}: {type(acc).__name__}"}],
+                            "obs": obs}
             audit_cfg = cfg
         else:
             acc = sharded_file_accessor.ShardedFileAccessor(base)
@@ -277,9 +294,15 @@ def run_case(case):
         # ---- cross-configuration reads
         if not v and kind == "file":
             for other in CONFIGS:
-                for via in ("class", "url"):
+                for via in ("class", "url", "file-url", "precomputed-file-url"):
+                    file_url = "file://" + urllib.parse.quote(base)
                     acc2 = (file_accessor.FileAccessor(base, **other) if via == "class"
-                            else accessor_mod.get_accessor_for_url(base, other))
+                            else accessor_mod.get_accessor_for_url(
+                                {"url": base, "file-url": file_url,
+                                 "precomputed-file-url": "precomputed://" + file_url}[via],
+                                other))
+                    obs["opened_via"] = obs.get("opened_via") or {}
+                    obs["opened_via"][via] = obs["opened_via"].get(via, 0) + 1
                     if not isinstance(acc2, file_accessor.FileAccessor):
                         continue   # an 'info' payload may look sharded; not this property
                     for name, data in files.items():
